@@ -430,3 +430,271 @@ Proof.
   destruct (release_subs gone); [|discriminate]. inversion H; subst.
   apply sort_subs_in. apply in_or_app. left. exact Hk.
 Qed.
+
+(* ---------- kept state through a whole table reload ---------- *)
+Lemma ins_clu_in : forall x c l, In x (ins_clu c l) <-> x = c \/ In x l.
+Proof.
+  intros x c. induction l as [|a r IH]; simpl.
+  - split; [intros [H|[]]; left; symmetry; exact H|intros [H|[]]; left; symmetry; exact H].
+  - destruct (cname c <? cname a); simpl.
+    + split; [intros [H|H]; [left; symmetry; exact H|right; exact H]|intros [H|H]; [left; symmetry; exact H|right; exact H]].
+    + rewrite IH. split; [intros [H|[H|H]]; auto|intros [H|[H|H]]; auto].
+Qed.
+(* phase 1: every configured cluster is in the result with the sub-cluster list its own Reload produced *)
+Lemma phase1_in : forall gs old cs rel e n g,
+  phase1 gs old = Some (cs, rel, e) -> In (n, g) gs ->
+  exists subs' rel' e' m', 
+    reload_gslb g (match cfind n old with Some c => csubs c | None => [] end)
+                  (match cfind n old with Some c => cmeta c | None => meta0 end) = Some (subs', rel', e', m') /\
+    In (mkClu n subs' m') cs /\ (e = false -> e' = false).
+Proof.
+  induction gs as [|[n0 g0] r IH]; intros old cs rel e n g H Hin; [destruct Hin|]. simpl in H.
+  destruct (reload_gslb g0 _ _) as [[[[subs0 rel0] e0] m0]|] eqn:E0; [|discriminate].
+  destruct (phase1 r old) as [[[cs1 rel1] e1]|] eqn:E1; [|discriminate]. inversion H; subst.
+  destruct Hin as [Heq|Hin].
+  - inversion Heq; subst. exists subs0, rel0, e0, m0. split; [exact E0|]. split; [apply ins_clu_in; left; reflexivity|].
+    intros Hf. apply orb_false_iff in Hf. apply Hf.
+  - destruct (IH old cs1 rel1 e1 n g E1 Hin) as [subs' [rel' [e' [m' [A [B C]]]]]].
+    exists subs', rel', e', m'. split; [exact A|]. split; [apply ins_clu_in; right; exact B|].
+    intros Hf. apply orb_false_iff in Hf. apply C. apply Hf.
+Qed.
+(* BackendReload keeps every sub-cluster, with its backend list updated or untouched *)
+Lemma backend_reload_in : forall cb l l' rel s, backend_reload cb l = Some (l', rel) -> In s l ->
+  match bfind (sname s) cb with
+  | Some c => exists bs rel0, update_rr c (sbks s) = Some (bs, rel0) /\ In (mkSub (sname s) (sweight s) bs) l'
+  | None => In s l'
+  end.
+Proof.
+  intros cb. induction l as [|x r IH]; intros l' rel s H Hin; [destruct Hin|]. simpl in H.
+  destruct Hin as [->|Hin].
+  - destruct (bfind (sname s) cb) as [c|].
+    + destruct (update_rr c (sbks s)) as [[bs rel0]|] eqn:E; [|discriminate].
+      destruct (backend_reload cb r) as [[r' rel']|]; [|discriminate]. inversion H; subst.
+      exists bs, rel0. split; [reflexivity|left; reflexivity].
+    + destruct (backend_reload cb r) as [[r' rel']|]; [|discriminate]. inversion H; subst. left. reflexivity.
+  - destruct (bfind (sname x) cb) as [cx|].
+    + destruct (update_rr cx (sbks x)) as [[bsx relx]|]; [|discriminate].
+      destruct (backend_reload cb r) as [[r1 rel1]|] eqn:E; [|discriminate].
+      pose proof (IH _ _ _ eq_refl Hin) as Hrec. inversion H; subst.
+      destruct (bfind (sname s) cb).
+      * destruct Hrec as [bs [rel0 [A B]]]. exists bs, rel0. split; [exact A|right; exact B].
+      * right. exact Hrec.
+    + destruct (backend_reload cb r) as [[r1 rel1]|] eqn:E; [|discriminate].
+      pose proof (IH _ _ _ eq_refl Hin) as Hrec. inversion H; subst.
+      destruct (bfind (sname s) cb).
+      * destruct Hrec as [bs [rel0 [A B]]]. exists bs, rel0. split; [exact A|right; exact B].
+      * right. exact Hrec.
+Qed.
+Lemma phase3_in : forall bc l l' rel e c, phase3 bc l = Some (l', rel, e) -> In c l ->
+  match bfind (cname c) bc with
+  | Some cb => exists subs rel0, backend_reload cb (csubs c) = Some (subs, rel0) /\ In (mkClu (cname c) subs (cmeta c)) l'
+  | None => In c l'
+  end.
+Proof.
+  intros bc. induction l as [|x r IH]; intros l' rel e c H Hin; [destruct Hin|]. simpl in H.
+  destruct Hin as [->|Hin].
+  - destruct (bfind (cname c) bc) as [cb|].
+    + destruct (backend_reload cb (csubs c)) as [[subs rel0]|] eqn:E; [|discriminate].
+      destruct (phase3 bc r) as [[[r' rel'] e']|]; [|discriminate]. inversion H; subst.
+      exists subs, rel0. split; [reflexivity|left; reflexivity].
+    + destruct (phase3 bc r) as [[[r' rel'] e']|]; [|discriminate]. inversion H; subst. left. reflexivity.
+  - destruct (bfind (cname x) bc) as [cbx|].
+    + destruct (backend_reload cbx (csubs x)) as [[subsx relx]|]; [|discriminate].
+      destruct (phase3 bc r) as [[[r1 rel1] e1]|] eqn:E; [|discriminate].
+      pose proof (IH _ _ _ _ eq_refl Hin) as Hrec. inversion H; subst.
+      destruct (bfind (cname c) bc).
+      * destruct Hrec as [subs [rel0 [A B]]]. exists subs, rel0. split; [exact A|right; exact B].
+      * right. exact Hrec.
+    + destruct (phase3 bc r) as [[[r1 rel1] e1]|] eqn:E; [|discriminate].
+      pose proof (IH _ _ _ _ eq_refl Hin) as Hrec. inversion H; subst.
+      destruct (bfind (cname c) bc).
+      * destruct Hrec as [subs [rel0 [A B]]]. exists subs, rel0. split; [exact A|right; exact B].
+      * right. exact Hrec.
+Qed.
+
+(* what happens to backend b of a persisting sub-cluster: untouched when no backend conf names its cluster / sub-cluster,
+   otherwise the same object with the configured weight *)
+Definition kept_image (bc : list (Z * list (Z * bconf))) (cn sn : Z) (b : bk) : option bk :=
+  match bfind cn bc with
+  | None => Some b
+  | Some cb => match bfind sn cb with
+               | None => Some b
+               | Some conf => match conf_last (kaddr b) conf None with
+                              | Some (_, w) => Some (set_weight b w)
+                              | None => None            (* address removed: released *)
+                              end
+               end
+  end.
+
+(* BalTableReload keeps the very object (availability, counters, name, release count) of every backend whose cluster,
+   sub-cluster and address persist in the new configuration - through Reload, BackendReload and Update. *)
+Theorem table_keeps : forall gs bc t t' err c g s w b b',
+  table_reload gs bc t = Some (t', false, err) ->
+  cfind (cname c) (clus t) = Some c -> In (cname c, g) gs ->
+  In s (csubs c) -> gfind (sname s) g = Some w ->
+  In b (sbks s) -> NoDup (map kaddr (sbks s)) ->
+  kept_image bc (cname c) (sname s) b = Some b' ->
+  exists c' s', In c' (clus t') /\ cname c' = cname c /\ In s' (csubs c') /\ sname s' = sname s /\
+                sweight s' = w /\ In b' (sbks s').
+Proof.
+  intros gs bc t t' err c g s w b b' H Hc Hg Hs Hw Hb Hnd Hk. unfold table_reload in H.
+  destruct (phase1 gs (clus t)) as [[[cs rel1] e]|] eqn:E1; [|discriminate].
+  destruct (release_clusters _) as [rel2|]; [|discriminate].
+  destruct (phase3 bc cs) as [[[cs' rel3] berr]|] eqn:E3; [|discriminate]. inversion H; subst. clear H.
+  destruct (phase1_in _ _ _ _ _ _ _ E1 Hg) as [subs' [rel' [e' [m' [A [B C]]]]]].
+  rewrite Hc in A. specialize (C eq_refl). subst e'.
+  pose proof (gslb_keeps _ _ _ _ _ _ s w A Hs Hw) as Hin1.
+  pose proof (phase3_in _ _ _ _ _ _ E3 B) as H3. cbn [cname csubs cmeta] in H3.
+  unfold kept_image in Hk.
+  destruct (bfind (cname c) bc) as [cb|].
+  - destruct H3 as [subs [rel0 [Hbr Hin3]]].
+    pose proof (backend_reload_in _ _ _ _ _ Hbr Hin1) as H4. cbn [sname sweight sbks] in H4.
+    destruct (bfind (sname s) cb) as [conf|].
+    + destruct H4 as [bs [rel00 [Hu Hin4]]].
+      destruct (conf_last (kaddr b) conf None) as [[n0 w0]|] eqn:Ecl; [|discriminate]. inversion Hk; subst.
+      eexists. eexists. split; [exact Hin3|]. split; [reflexivity|]. split; [exact Hin4|]. split; [reflexivity|].
+      split; [reflexivity|]. eapply update_keeps_state; eassumption.
+    + inversion Hk; subst. eexists. eexists. split; [exact Hin3|]. split; [reflexivity|]. split; [exact H4|].
+      split; [reflexivity|]. split; [reflexivity|exact Hb].
+  - inversion Hk; subst. eexists. eexists. split; [exact H3|]. split; [reflexivity|]. split; [exact Hin1|].
+    split; [reflexivity|]. split; [reflexivity|exact Hb].
+Qed.
+
+(* ---------- selection after a reload: exactly the eligible backends of the positive-weight sub-clusters ---------- *)
+Lemma pos_total_nonneg : forall l, 0 <= pos_total l.
+Proof.
+  induction l as [|s r IH]; simpl; [lia|]. destruct (sweight s >? 0) eqn:E; [|exact IH].
+  rewrite Z.gtb_ltb in E. apply Z.ltb_lt in E. lia.
+Qed.
+Lemma walk_sound : forall l w cur, 0 <= w < pos_total l ->
+  exists s, walk l w cur = Some s /\ In s l /\ sweight s > 0.
+Proof.
+  induction l as [|s r IH]; intros w cur Hw; simpl in *; [lia|].
+  destruct (sweight s >? 0) eqn:E; rewrite Z.gtb_ltb in E.
+  - apply Z.ltb_lt in E. destruct (sweight s <=? 0) eqn:E2; [apply Z.leb_le in E2; lia|].
+    destruct (w - sweight s <? 0) eqn:E3.
+    + exists s. split; [reflexivity|]. split; [left; reflexivity|lia].
+    + apply Z.ltb_ge in E3. destruct (IH (w - sweight s) (Some s)) as [s' [A [B C]]]; [lia|].
+      exists s'. split; [exact A|]. split; [right; exact B|exact C].
+  - apply Z.ltb_ge in E. destruct (sweight s <=? 0) eqn:E2; [|apply Z.leb_gt in E2; lia].
+    destruct (IH w (Some s) Hw) as [s' [A [B C]]]. exists s'. split; [exact A|]. split; [right; exact B|exact C].
+Qed.
+Lemma walk_complete : forall l s, In s l -> sweight s > 0 ->
+  exists w, 0 <= w < pos_total l /\ forall cur, walk l w cur = Some s.
+Proof.
+  induction l as [|x r IH]; intros s Hin Hs; [destruct Hin|]. simpl.
+  destruct Hin as [->|Hin].
+  - exists 0. destruct (sweight s >? 0) eqn:E; [|rewrite Z.gtb_ltb in E; apply Z.ltb_ge in E; lia].
+    pose proof (pos_total_nonneg r). split; [lia|]. intros cur.
+    destruct (sweight s <=? 0) eqn:E2; [apply Z.leb_le in E2; lia|].
+    destruct (0 - sweight s <? 0) eqn:E3; [reflexivity|apply Z.ltb_ge in E3; lia].
+  - destruct (IH s Hin Hs) as [w0 [Hw0 Hwalk]].
+    destruct (sweight x >? 0) eqn:E; rewrite Z.gtb_ltb in E.
+    + apply Z.ltb_lt in E. exists (w0 + sweight x). split; [lia|]. intros cur.
+      destruct (sweight x <=? 0) eqn:E2; [apply Z.leb_le in E2; lia|].
+      replace (w0 + sweight x - sweight x) with w0 by lia.
+      destruct (w0 <? 0) eqn:E3; [apply Z.ltb_lt in E3; lia|]. apply Hwalk.
+    + apply Z.ltb_ge in E. exists w0. split; [exact Hw0|]. intros cur.
+      destruct (sweight x <=? 0) eqn:E2; [|apply Z.leb_gt in E2; lia]. apply Hwalk.
+Qed.
+
+Definition positive (s : sub) : bool := sweight s >? 0.
+(* lastAvailIndex really is the position of the last positive-weight sub-cluster *)
+Lemma last_pos_spec : forall l i acc, 0 <= i -> existsb positive l = true ->
+  exists s, nth_error l (Z.to_nat (last_pos l i acc - i)) = Some s /\ sweight s > 0 /\ i <= last_pos l i acc.
+Proof.
+  induction l as [|x r IH]; intros i acc Hi Hex; [discriminate|]. simpl in Hex. simpl.
+  destruct (existsb positive r) eqn:Er.
+  - destruct (IH (i + 1) (if sweight x >? 0 then i else acc)) as [s [A [B C]]]; [lia|reflexivity|].
+    exists s. split; [|split; [exact B|lia]].
+    replace (Z.to_nat (last_pos r (i + 1) (if sweight x >? 0 then i else acc) - i))
+      with (S (Z.to_nat (last_pos r (i + 1) (if sweight x >? 0 then i else acc) - (i + 1)))) by lia.
+    exact A.
+  - rewrite orb_false_r in Hex. unfold positive in Hex. rewrite Hex.
+    assert (Hlp : forall j a, last_pos r j a = a).
+    { clear -Er. induction r as [|y r IH]; intros j a; simpl; [reflexivity|].
+      simpl in Er. apply orb_false_iff in Er. destruct Er as [E1 E2]. unfold positive in E1. rewrite E1. apply IH. exact E2. }
+    rewrite Hlp. replace (i - i) with 0 by lia. exists x. split; [reflexivity|]. split; [|lia].
+    rewrite Z.gtb_ltb in Hex. apply Z.ltb_lt in Hex. lia.
+Qed.
+Lemma count_pos_one : forall l, count_pos l = 1 -> exists s, filter positive l = [s].
+Proof.
+  intros l H. unfold count_pos in H. fold positive in H.
+  destruct (filter positive l) as [|s [|s2 r]]; simpl in H; try lia. exists s. reflexivity.
+Qed.
+
+(* the short-cuts are those Reload computes from the list itself *)
+Definition meta_fresh (c : clu) : Prop :=
+  fst (fst (cmeta c)) = pos_total (csubs c) /\
+  snd (fst (cmeta c)) = (count_pos (csubs c) =? 1) /\
+  (count_pos (csubs c) =? 1 = true -> snd (cmeta c) = last_pos (csubs c) 0 0).
+
+Lemma choose_sound : forall c r, meta_fresh c -> 0 <= r < pos_total (csubs c) ->
+  exists s, choose_sub c r = Some s /\ In s (csubs c) /\ sweight s > 0.
+Proof.
+  intros c r [H1 [H2 H3]] Hr. unfold choose_sub. destruct (cmeta c) as [[total single] av]. simpl in *. subst.
+  destruct (count_pos (csubs c) =? 1) eqn:E.
+  - rewrite (H3 eq_refl). apply Z.eqb_eq in E. destruct (count_pos_one _ E) as [s0 Hf].
+    assert (Hex : existsb positive (csubs c) = true).
+    { apply existsb_exists. exists s0. assert (Hin : In s0 (filter positive (csubs c))) by (rewrite Hf; left; reflexivity).
+      apply filter_In in Hin. exact Hin. }
+    destruct (last_pos_spec (csubs c) 0 0 (Z.le_refl 0) Hex) as [s [A [B C]]].
+    rewrite Z.sub_0_r in A. destruct (last_pos (csubs c) 0 0 <? 0) eqn:E2; [apply Z.ltb_lt in E2; lia|].
+    exists s. split; [exact A|]. split; [eapply nth_error_In; exact A|exact B].
+  - apply walk_sound. exact Hr.
+Qed.
+Lemma choose_complete : forall c s, meta_fresh c -> In s (csubs c) -> sweight s > 0 ->
+  exists r, 0 <= r < pos_total (csubs c) /\ choose_sub c r = Some s.
+Proof.
+  intros c s [H1 [H2 H3]] Hin Hs. unfold choose_sub. destruct (cmeta c) as [[total single] av]. simpl in *. subst.
+  destruct (walk_complete _ _ Hin Hs) as [w [Hw Hwalk]].
+  destruct (count_pos (csubs c) =? 1) eqn:E.
+  - exists w. split; [exact Hw|]. rewrite (H3 eq_refl). apply Z.eqb_eq in E. destruct (count_pos_one _ E) as [s0 Hf].
+    assert (Hs0 : s = s0).
+    { assert (Hin' : In s (filter positive (csubs c))).
+      { apply filter_In. split; [exact Hin|]. unfold positive. rewrite Z.gtb_ltb. apply Z.ltb_lt. lia. }
+      rewrite Hf in Hin'. destruct Hin' as [<-|[]]. reflexivity. }
+    assert (Hex : existsb positive (csubs c) = true).
+    { apply existsb_exists. exists s. split; [exact Hin|]. unfold positive. rewrite Z.gtb_ltb. apply Z.ltb_lt. lia. }
+    destruct (last_pos_spec (csubs c) 0 0 (Z.le_refl 0) Hex) as [s1 [A [B C]]].
+    rewrite Z.sub_0_r in A. destruct (last_pos (csubs c) 0 0 <? 0) eqn:E2; [apply Z.ltb_lt in E2; lia|].
+    rewrite A. f_equal.
+    assert (Hin1 : In s1 (filter positive (csubs c))).
+    { apply filter_In. split; [eapply nth_error_In; exact A|]. unfold positive. rewrite Z.gtb_ltb. apply Z.ltb_lt. lia. }
+    rewrite Hf in Hin1. destruct Hin1 as [<-|[]]. symmetry. exact Hs0.
+  - exists w. split; [exact Hw|apply Hwalk].
+Qed.
+
+(* BalanceGslb.Balance (all hash residues, enough picks) selects exactly the available positive-weight backends of
+   the positive-weight sub-clusters: added ones are selectable, drained / unavailable / weight-0 ones are not *)
+Theorem selected_exact : forall c x, meta_fresh c -> 0 < pos_total (csubs c) ->
+  (In x (fst (selected c)) <->
+   exists s b, In s (csubs c) /\ sweight s > 0 /\ In b (sbks s) /\ bk_eligible b = true /\ x = sel_code s b).
+Proof.
+  intros c x Hm Hpos. unfold selected. destruct Hm as [H1 H2]. rewrite H1.
+  destruct (pos_total (csubs c) <=? 0) eqn:E; [apply Z.leb_le in E; lia|]. cbn [fst].
+  rewrite sort_dedup_in. rewrite in_flat_map. split.
+  - intros [[pk er] [Hin Hx]]. apply in_map_iff in Hin. destruct Hin as [k [Hk Hseq]]. apply in_seq in Hseq.
+    unfold select_r in Hk. destruct (choose_sound c (Z.of_nat k) (conj H1 H2)) as [s [A [B C]]]; [lia|]. rewrite A in Hk.
+    destruct (filter bk_eligible (sbks s)) as [|b0 el] eqn:Ef; inversion Hk; subst; cbn [fst] in Hx; [destruct Hx|].
+    change (In x (map (sel_code s) (b0 :: el))) in Hx.
+    rewrite <- Ef in Hx.
+    apply in_map_iff in Hx. destruct Hx as [b [Hb Hbin]]. apply filter_In in Hbin. destruct Hbin as [Hb1 Hb2].
+    exists s, b. repeat split; auto.
+  - intros [s [b [Hs [Hw [Hb [He ->]]]]]].
+    destruct (choose_complete c s (conj H1 H2) Hs Hw) as [r [Hr Hc]].
+    exists (select_r c r). split.
+    + apply in_map_iff. exists (Z.to_nat r). split; [rewrite Z2Nat.id by lia; reflexivity|]. apply in_seq. lia.
+    + unfold select_r. rewrite Hc.
+      assert (Hin : In b (filter bk_eligible (sbks s))) by (apply filter_In; split; assumption).
+      destruct (filter bk_eligible (sbks s)) as [|b0 el] eqn:Ef; [destruct Hin|]. cbn [fst].
+      rewrite <- Ef. apply in_map. apply filter_In. split; assumption.
+Qed.
+(* a successful BalanceGslb.Reload leaves fresh short-cuts *)
+Lemma reload_gslb_fresh : forall g l m nl rel m', reload_gslb g l m = Some (nl, rel, false, m') ->
+  meta_fresh (mkClu 0 nl m').
+Proof.
+  intros g l m nl rel m' H. unfold reload_gslb in H. destruct (reload_old g l) as [[k mu] gone].
+  destruct (pos_total _ =? 0); [discriminate|]. destruct (release_subs gone); [|discriminate]. inversion H; subst.
+  unfold meta_fresh, new_meta. simpl. split; [reflexivity|]. split; [reflexivity|]. intros ->. reflexivity.
+Qed.
